@@ -52,6 +52,8 @@ def judge_all(rep, cases, label):
         k = next((n for n in range(min(len(src), len(out))) if src[n] != out[n]), min(len(src), len(out)))
         sig = {"kind": "identity", "status": o["status"][:80],
                "cause": "method-type-instantiation-dropped" if o["status"] == "ok" and out == re.sub(r"(:\s*\w+)\s*<<.*?>>", r"\1", src) and out != src
+                        else "const-surplus-values-throwaway" if o["status"] == "ok" and "____darklua_throwaway_var" not in src
+                             and re.sub(r"\s", "", out.replace("____darklua_throwaway_var", "")).replace(",=", "=") == re.sub(r"\s", "", src)
                         else "space-between-close-brackets" if o["status"] == "ok" and only_bracket_spaces(src, out)
                         else "trivia-after-type-pack-ellipsis" if cid in ellipsis else "other",
                "first_difference_at": k, "src_excerpt": src[max(0, k - 30):k + 30], "out_excerpt": out[max(0, k - 30):k + 30]}
